@@ -21,7 +21,8 @@
 (***************************************************************************)
 EXTENDS TxAuth, TLC, Json
 
-CONSTANTS HashBits, SignBits, SourceBits, FieldBits, EdBits,   \* bit positions swept (sets of naturals)
+CONSTANTS DataLens,     \* call-data lengths of the re-framed payloads
+          HashBits, SignBits, SourceBits, FieldBits, EdBits,   \* bit positions swept (sets of naturals)
           CtxAll       \* TRUE: every case in every pool context; FALSE: the bit sweeps only in the empty pool
 
 VARIABLES phase, c
@@ -60,6 +61,9 @@ NativeCases(h) ==
          Case(h, "sign:malleated", "auth", DamageSign(b, "malleated", 0), b) }
   \cup Sweep({ Case(h, "sign:flip", "auth", DamageSign(b, "flip", i), b) : i \in SignBits })
   \cup { Case(h, "unauth:" \o n, "unauth", SetField(b, n, 1), b) : n \in UnauthFields }
+  \* textual variations of a field that read the same but are another hash pre-image (hash not recomputed)
+  \cup { Case(h, "textual:" \o nv[1] \o ":" \o ToString(nv[2]), "auth", SetField(b, nv[1], nv[2]), b) :
+           nv \in {<<"Data", 3>>, <<"Data", 4>>, <<"Data", 5>>, <<"Time", 3>>, <<"ExtraData", 3>>, <<"Target", 3>>, <<"Source", 4>>} }
 
 EthCases(h, to) ==
   LET b == HonestEth(h, to)
@@ -88,6 +92,13 @@ EthCases(h, to) ==
   \cup Sweep({ Case(h, "flipfield:Source", "auth", FlipWrap(b, "Source", i), b) : i \in SourceBits })
   \cup { Case(h, "ed:" \o d, "auth", DamageEd(b, d, 0), b) : d \in {"upper", "garbage", "trunc", "trail"} }
   \cup Sweep({ Case(h, "ed:flip", "auth", DamageEd(b, "flip", i), b) : i \in EdBits })
+  \* same decoded content, different bytes: every item of the payload in every non-canonical framing,
+  \* and the call data at every length around the boundaries of the length coding
+  \cup { Case(h, "reframe:" \o how, "auth", Reframe(b, it, how), b) : it \in PayItems, how \in ReframeHows }
+  \cup UNION { LET bl == Wrapped([BasePay(ChainOf(h), to) EXCEPT !.dlen = dl]) IN
+               { Case(h, "reframe-data:" \o how, "auth", Reframe(bl, it, how), bl) : it \in {0, 6}, how \in ReframeHows }
+               \cup { Case(h, "honest", "honest", bl, bl) }
+               : dl \in DataLens }
   \cup { Case(h, "free:" \o n, "unauth", SetWrap(b, n, IF n = "Sign" THEN "some" ELSE 1), b) : n \in EthFree }
 
 Seeds == { [op |-> "seed", kind |-> "native", h |-> h] : h \in Heights }
